@@ -84,7 +84,8 @@ type hobj struct {
 	decSvc   service.Service
 	decMsg   *step.MessageStepX
 
-	done bool // round-tripped
+	fillOK bool // the encoders gave the reference bytes when the object was filled
+	done   bool // round-tripped
 }
 
 func rotate(s []stepgen.RefStep, k int) []stepgen.RefStep {
@@ -280,7 +281,8 @@ func (o *hobj) fill(l *ledger) {
 			l.hold("ErrorSnapPack1.SetStack", o.gp.(*pack.ErrorSnapPack1).Stack)
 			l.verify()
 		}
-		if !bytes.Equal(got, o.stepRef) {
+		o.fillOK = bytes.Equal(got, o.stepRef)
+		if !o.fillOK {
 			c.Fail(fn+":bytes-differ", fmt.Sprintf("%s: the step bytes %s keeps after SetProfile differ from the reference at byte %d", l.where, o.id, firstDiff(got, o.stepRef)),
 				histDetail(l, o, map[string]interface{}{"golib": hexFull(got), "reference": hexFull(o.stepRef)}))
 		}
@@ -289,7 +291,8 @@ func (o *hobj) fill(l *ledger) {
 		o.raw = step.ToBytesStep(o.gs)
 		l.hold("ToBytesStep", o.raw)
 		l.verify()
-		if !bytes.Equal(o.raw, o.stepRef) {
+		o.fillOK = bytes.Equal(o.raw, o.stepRef)
+		if !o.fillOK {
 			c.Fail("ToBytesStep:bytes-differ", fmt.Sprintf("%s: ToBytesStep differs from the reference at byte %d", l.where, firstDiff(o.raw, o.stepRef)),
 				histDetail(l, o, map[string]interface{}{"golib": hexFull(o.raw), "reference": hexFull(o.stepRef)}))
 		}
@@ -299,7 +302,8 @@ func (o *hobj) fill(l *ledger) {
 		o.txHeld = o.gtx.ToBytes()
 		l.hold("TxRecord.ToBytes", o.txHeld)
 		l.verify()
-		if !bytes.Equal(o.txHeld, o.txRef) {
+		o.fillOK = bytes.Equal(o.txHeld, o.txRef)
+		if !o.fillOK {
 			c.Fail("TxRecord:bytes-differ", fmt.Sprintf("%s: TxRecord.ToBytes differs from the reference at byte %d", l.where, firstDiff(o.txHeld, o.txRef)),
 				histDetail(l, o, map[string]interface{}{"golib": hexFull(o.txHeld), "reference": hexFull(o.txRef)}))
 		}
@@ -311,7 +315,8 @@ func (o *hobj) fill(l *ledger) {
 		o.svcHeld = out.ToByteArray()
 		l.hold("service.ToBytes", o.svcHeld)
 		l.verify()
-		if !bytes.Equal(o.svcHeld, o.svcRef) {
+		o.fillOK = bytes.Equal(o.svcHeld, o.svcRef)
+		if !o.fillOK {
 			c.Fail(refcodec.SvcTypeName(o.svc.Type)+":bytes-differ", fmt.Sprintf("%s: service.ToBytes differs from the reference at byte %d", l.where, firstDiff(o.svcHeld, o.svcRef)),
 				histDetail(l, o, map[string]interface{}{"golib": hexFull(o.svcHeld), "reference": hexFull(o.svcRef)}))
 		}
@@ -325,7 +330,8 @@ func (o *hobj) fill(l *ledger) {
 		o.msgHeld = step.WriteStep(gio.NewDataOutputX(), o.gmsg).ToByteArray()
 		l.hold("WriteStep", o.msgHeld)
 		l.verify()
-		if len(o.msgHeld) != len(o.msgBody)+1 || o.msgHeld[0] != refcodec.StepTMessageX || !bytes.Equal(o.msgHeld[1:], o.msgBody) {
+		o.fillOK = len(o.msgHeld) == len(o.msgBody)+1 && o.msgHeld[0] == refcodec.StepTMessageX && bytes.Equal(o.msgHeld[1:], o.msgBody)
+		if !o.fillOK {
 			c.Fail("MessageStepX:bytes-differ", fmt.Sprintf("%s: WriteStep(MessageStepX) is not tag 22 + the reference body", l.where),
 				histDetail(l, o, map[string]interface{}{"golib": hexFull(o.msgHeld), "reference_body": hexFull(o.msgBody)}))
 		}
@@ -378,6 +384,12 @@ func describeBlob(b []byte, want []stepgen.RefStep) string {
 func (o *hobj) roundTrip(l *ledger) {
 	o.done = true
 	c.Count("history_roundtrips", 1)
+	if !o.fillOK {
+		// the encoding was not the reference when it was produced (reported as :bytes-differ
+		// there); nothing that happens later can be told apart from that
+		c.Count("history_roundtrips_skipped_wrong_encoding", 1)
+		return
+	}
 	switch o.kind {
 	case hkProfile, hkStepSplit, hkErrorSnap:
 		o.roundTripPack(l)
@@ -647,6 +659,9 @@ func (o *hobj) recheck(l *ledger) {
 // reencode runs the object's encoders once more after the caller wrote over every slice it
 // had been given: the result must be the reference again.
 func (o *hobj) reencode(l *ledger) {
+	if !o.fillOK {
+		return
+	}
 	bad := func(fn string, got, ref []byte) {
 		key := fn + ":later-encode-depends-on-returned-slice"
 		if cheap(key) {
@@ -849,9 +864,9 @@ func historyCase(section string, i int, r *vlib.Rand) {
 
 // historySections registers the sequential and the parallel history sections and their floors.
 func historySections(race bool) {
-	nSeq, nPar := c.N(6000, 90000), c.N(6000, 90000)
+	nSeq, nPar := c.N(3000, 60000), c.N(3000, 60000)
 	if race {
-		nSeq, nPar = c.N(400, 6000), c.N(1600, 24000)
+		nSeq, nPar = c.N(200, 4000), c.N(800, 16000)
 	}
 	c.Cases("history", nSeq, func(i int, r *vlib.Rand) {
 		historyCase("history", i, r)
